@@ -149,6 +149,9 @@ pub struct LockSt {
 	pub shared: Vec<usize>,
 	/// sequential mode only: a foreign writer is queued (for WP semantics)
 	pub queued_writer: bool,
+	/// an unlock this lock's holder state did not entitle the caller to has been applied to it: by the lock_api
+	/// contract that is undefined behaviour of the raw lock, which from then on may never grant a waiter
+	pub corrupted: bool,
 }
 impl LockSt {
 	pub fn is_free(&self) -> bool {
@@ -189,6 +192,10 @@ pub struct ThreadSt {
 	pub fault_next_try: bool,
 	/// the hidden-flag digest this thread last ran under
 	pub hidden_seen: u64,
+	/// menu threads, while inside an action on target `watch`: digest of that target's hidden flags when the
+	/// thread last ran (what the library may have read on its behalf)
+	pub watch: Option<usize>,
+	pub watch_seen: u64,
 }
 
 #[derive(Clone, Debug, serde::Serialize, serde::Deserialize)]
@@ -318,6 +325,9 @@ impl Inner {
 			if l.queued_writer {
 				h = mix(h, 2 << 40 | i as u64);
 			}
+			if l.corrupted {
+				h = mix(h, 3 << 40 | i as u64);
+			}
 		}
 		h
 	}
@@ -372,7 +382,10 @@ impl Inner {
 	}
 
 	fn hidden_digest_with(&self, p: &HiddenProbe) -> u64 {
-		let mut h = p();
+		self.hidden_digest_of(p, None)
+	}
+	fn hidden_digest_of(&self, p: &HiddenProbe, t: Option<usize>) -> u64 {
+		let mut h = p(t);
 		for (_, op) in &self.faults_fired {
 			h = mix(h, 0xdead_0000 | (op.lock as u64) << 4 | op.act as u64);
 		}
@@ -457,6 +470,7 @@ impl Inner {
 					let l = &mut self.locks[op.lock as usize];
 					l.excl = None;
 					l.shared.clear();
+					l.corrupted = true;
 				}
 				self.log(tid, call, EvKind::Raw { op, ok: note.is_empty(), note });
 				true
@@ -504,6 +518,13 @@ impl Inner {
 			if conflict {
 				self.viol("C01", format!("self-wait|{}", what_key(&ctx.what)), format!("T{} waits for L{} which it holds itself, during `{}`", tid, op.lock, ctx.what));
 			}
+			// The harness lock grants by its owner table, so it forgives an unlock the caller was not entitled to
+			// (wrong mode, not held). A production raw lock does not: lock_api makes that undefined behaviour and
+			// parking_lot's state word is left claiming holders that do not exist, so a later blocking acquisition
+			// may wait for ever although nobody holds the lock.
+			if self.locks[op.lock as usize].corrupted {
+				self.viol("C01", format!("wait-on-corrupted-lock|{}", what_key(&ctx.what)), format!("T{} blocks on L{} during `{}` after an unlock that lock_api does not allow was applied to L{} (wrong mode or not held): a real raw lock may never grant this", tid, op.lock, ctx.what, op.lock));
+			}
 		}
 	}
 }
@@ -521,14 +542,15 @@ pub enum Decision {
 /// The scheduling policy of an execution; called (under the execution lock) by whichever
 /// thread made the execution quiescent.
 pub type Decider = Box<dyn FnMut(&mut Inner) -> Decision + Send>;
-pub type HiddenProbe = Box<dyn Fn() -> u64 + Send>;
+/// `None`: digest of every hidden flag of the world; `Some(t)`: of the flags target `t` can reach
+pub type HiddenProbe = Box<dyn Fn(Option<usize>) -> u64 + Send>;
 
 impl Exec {
 	pub fn new(gran: Gran, policy: Policy, nthreads: usize, is_rw: Vec<bool>) -> Arc<Exec> {
 		let nlocks = is_rw.len();
 		let mut threads = vec![];
 		for _ in 0..MAXT {
-			threads.push(ThreadSt { status: Status::Finished, pending: None, result: false, chosen: 0, obs: 0, local: 0, use_local: false, pc: 0, ctx: CallCtx::none(), call_serial: 0, outcome: None, retry_rounds: 0, points: 0, last_acq_seq: vec![], last_acquired: vec![], inflight: vec![], fault_next_try: false, hidden_seen: 0 });
+			threads.push(ThreadSt { status: Status::Finished, pending: None, result: false, chosen: 0, obs: 0, local: 0, use_local: false, pc: 0, ctx: CallCtx::none(), call_serial: 0, outcome: None, retry_rounds: 0, points: 0, last_acq_seq: vec![], last_acquired: vec![], inflight: vec![], fault_next_try: false, hidden_seen: 0, watch: None, watch_seen: 0 });
 		}
 		for t in threads.iter_mut().take(nthreads) {
 			t.status = Status::NotStarted;
@@ -597,7 +619,7 @@ impl Exec {
 		g.hidden_probe = None;
 	}
 	/// Install the hidden-flag probe; every thread starts out having seen the current digest.
-	pub fn set_hidden_probe<'a>(&self, p: Box<dyn Fn() -> u64 + Send + 'a>) {
+	pub fn set_hidden_probe<'a>(&self, p: Box<dyn Fn(Option<usize>) -> u64 + Send + 'a>) {
 		let p: HiddenProbe = unsafe { std::mem::transmute(p) };
 		let mut g = self.lock();
 		let h = g.hidden_digest_with(&p);
@@ -631,6 +653,12 @@ impl Exec {
 				g.threads[tid].hidden_seen = h;
 				let o = mix(g.threads[tid].obs, 0x41dd_0000_0000_0000 ^ h);
 				g.threads[tid].obs = o;
+			}
+			if let Some(t) = g.threads[tid].watch {
+				if let Some(pr) = g.hidden_probe.take() {
+					g.threads[tid].watch_seen = g.hidden_digest_of(&pr, Some(t));
+					g.hidden_probe = Some(pr);
+				}
 			}
 		}
 		let p = g.threads[tid].pending.take().unwrap();
@@ -870,7 +898,7 @@ pub fn raw_op(lock: u32, act: Act, mode: Mode) -> bool {
 				}
 				None => false,
 			};
-			if fire && std::thread::panicking() {
+			if fire && std::thread::panicking() && !FAULT_IN_UNWIND_OK.with(|f| f.get()) {
 				// a raw operation issued from a destructor that runs while the thread unwinds: if it panicked now the
 				// process would abort instead of the panic reaching the caller. Report that and let the operation through.
 				let what = g.threads[tid].ctx.what.clone();
@@ -1007,6 +1035,24 @@ pub fn set_fault_next_try(on: bool) -> bool {
 	}
 }
 
+/// `RawLock::poison` is about to be called on these leaves by user code: from now on they count as killed (the same
+/// bookkeeping as a fired raw fault: part of the hidden-flag digest, and refusals by panicking are expected).
+pub fn explicit_kill(leaves: &[u32]) {
+	if let Some((exec, _)) = ctx() {
+		let mut g = exec.lock();
+		for l in leaves {
+			let idx = g.raw_counter;
+			g.faults_fired.push((idx, RawOp { lock: *l, act: Act::Unlock, mode: Mode::Excl }));
+		}
+	}
+}
+
+thread_local! {
+	/// set by the harness inside a destructor that runs during an unrelated unwind and wraps a library call in
+	/// catch_unwind: a raw fault may fire there (it cannot escape the destructor)
+	pub static FAULT_IN_UNWIND_OK: std::cell::Cell<bool> = const { std::cell::Cell::new(false) };
+}
+
 /// Has any injected raw-operation fault fired in this execution (so some lock may be killed)?
 pub fn any_fault_fired() -> bool {
 	ctx().map(|(e, _)| !e.lock().faults_fired.is_empty()).unwrap_or(false)
@@ -1029,6 +1075,18 @@ pub fn set_local(v: u64) {
 		let mut g = exec.lock();
 		g.threads[tid].local = v;
 		g.threads[tid].use_local = true;
+	}
+}
+/// Menu threads: the action that starts now works on target `t` (None: the action is over).
+pub fn set_watch(t: Option<usize>) {
+	if let Some((exec, tid)) = ctx() {
+		let mut g = exec.lock();
+		g.threads[tid].watch = t;
+		g.threads[tid].watch_seen = 0;
+		if let (Some(t), Some(pr)) = (t, g.hidden_probe.take()) {
+			g.threads[tid].watch_seen = g.hidden_digest_of(&pr, Some(t));
+			g.hidden_probe = Some(pr);
+		}
 	}
 }
 pub fn note(s: String) {
